@@ -370,9 +370,10 @@ def _cls(sub):
 def _term_shape(fi, t):
     """`f"{s}" if c == 1 else f"{c}{s}"` with s running over the side's species in sorted order and c that species' coefficient.
     The iteration may be a loop or a comprehension, directly over sorted(d) or over an intermediate generator of (coefficient, species) pairs."""
-    m = pmatch("f'{$s}' if $c == 1 else f'{$c}{$s}'", t)
+    m = pmatch("f'{$s}' if $$c == 1 else f'{$$c}{$s}'", t)
     if m is None:
         return False
+    c_is_name = m["c"].isidentifier()
     pm = parent_map(fi.node)
     its = iterations(pm, t, fi.node)
     if not its:
@@ -391,7 +392,13 @@ def _term_shape(fi, t):
     if it is None:
         return False
     holder_defs = local_defs(its[0].holder) if isinstance(its[0].holder, ast.For) else {}
-    csrc = norm(env[m["c"]]) if m["c"] in env else norm(origin(holder_defs or defs, ast.Name(id=m["c"], ctx=ast.Load())))
+    if not c_is_name:
+        csrc = m["c"]
+        for nm_, e_ in env.items():  # coefficient spelt through the pair generator's names
+            if csrc == nm_:
+                csrc = norm(e_)
+    else:
+        csrc = norm(env[m["c"]]) if m["c"] in env else norm(origin(holder_defs or defs, ast.Name(id=m["c"], ctx=ast.Load())))
     return csrc in (f"int({it['d']}[{target.id}])", f"{it['d']}[{target.id}]")
 
 
